@@ -120,6 +120,8 @@ def backend_corpus(seed, tier):
         gs.append(('mark%d' % i, gram.marker_grammar(rnd)))
     for i in range(6 if tier == 'quick' else 40):
         gs.append(('rrp%d' % i, gram.rr_prec_grammar(rnd)))
+    for i in range(1 if tier == 'quick' else 2):
+        gs.append(('vlong%d' % i, gram.very_long_rule_grammar(rnd, odd=bool(i % 2))))
     for i in range(1 if tier == 'quick' else 4):
         gs.append(('wop%d' % i, gram.wide_operator_grammar(rnd, nfill=rnd.randint(60, 66), nops=rnd.randint(5, 8))))
     n = 300 if tier == 'quick' else 3000
@@ -209,6 +211,7 @@ def i6_corpus(seed, tier):
         pool = allins[:60] + sents + ['y', 'ay']
         for _ in range(8 if gname.startswith('opt') else (3 if tier == 'quick' else 8)):
             jl.append(('hist', ','.join(rnd.choice(pool) for _ in range(rnd.randint(2, 6)))))
+        jl.append(('xlate', '-6'))
         for x in (sents[:3] + ins[1:3]):
             jl.append(('trace', x))
         for _ in range(2 if tier == 'quick' else 6):
@@ -955,7 +958,9 @@ def run_C06(ctx):
     ctx.extra['runs_stopped_by_reduction_limit'] = loops
     if not had_counterexample(ctx):
         rej = [d for d in i6_diffs(out) if 'syntax error' in d['what'] or 'error' in d['what'] or 'crashed' in d['what'] or 'nil' in d['what']]
-        report_corr(ctx, rej, {'I6'}, 'C06')
+        # the rejection theorems are about the proved tables, through the dense matrix and through the packed arrays: the tables the
+        # parsers were generated from must be those the model builds from the same file
+        report_corr(ctx, rej + backend_diffs_of_i6(out), {'I1', 'I2', 'I4', 'I5', 'I6'}, 'C06')
 
 
 # ------------------------------------------------------------------ C15
